@@ -5,7 +5,9 @@
   and test modules excluded), with the name of the constant it defines and its file: the table of all metric
   families a rotonda process can expose;
 * the metric constants `Source::append` of `MqttMetrics`, `RotoFilterMetrics` and `GateMetrics` hands to
-  `Target::append*`, in source order (the shape of those three sources).
+  `Target::append*`, in source order (the shape of those three sources);
+* `TokioTaskMetrics::append`: for every `append_simple(&Self::CONST, Some(unit_name), metrics.<field>[.as_millis()])`
+  the pair (CONST, field).
 
 A `Metric::new` whose arguments are not two string literals, a `MetricType::` and a `MetricUnit::` path is a loud
 failure (exit 1), as is a source whose `append` is not found."""
@@ -137,6 +139,21 @@ def main():
         if not consts:
             raise Lost(f"{ty}::append names no metric constant")
 
+    # TokioTaskMetrics::append: which field of the task monitor's interval each constant is fed
+    code = strip(drop_hooks(read_source(repo, "src/tokio.rs", TOOL)))
+    body = find_fn(code, "append", within=r"\bimpl\s+(?:\w+::)*Source\s+for\s+TokioTaskMetrics\b", what="impl Source for TokioTaskMetrics")
+    tokio = []
+    for m in re.finditer(r"\bappend_simple\s*\(", body):
+        s0, e0 = paren_after(body, m.end() - 1)
+        a = split_args(body[s0 + 1:e0 - 1])
+        c = re.fullmatch(r"&Self::(\w+)", a[0]) if len(a) == 3 else None
+        f = re.fullmatch(r"metrics\.(\w+)(\.as_millis\(\))?", norm(a[2])) if len(a) == 3 else None
+        if not c or not f or norm(a[1]) != "Some(unit_name)":
+            raise Lost("TokioTaskMetrics::append: an append_simple call is not (&Self::CONST, Some(unit_name), metrics.field[.as_millis()])")
+        tokio.append((c.group(1), f.group(1)))
+    if len(tokio) < 10:
+        raise Lost("TokioTaskMetrics::append: fewer than 10 append_simple calls found")
+
     L = ["/-! GENERATED by tools/extract_unitmetrics.py from src/**/*.rs — do not edit. -/", "namespace Rotonda.Generated.UnitMetrics", "",
          "/-- one `Metric::new`: the constant it defines, its file, name and help text (as characters), `MetricType` and `MetricUnit` variant -/",
          "structure Entry where", "  const : String", "  file : String", "  name : List Char", "  help : List Char", "  mtype : String", "  unit : String", "  deriving DecidableEq, Repr", "",
@@ -149,9 +166,12 @@ def main():
         L.append(f"/-- the nested sources it appends (`self.<field>.append(..)`) -/")
         L.append(f"def {name}Nested : List String := [" + ", ".join(lean_str(c) for c in extra) + "]")
         L.append("")
+    L.append("/-- `TokioTaskMetrics::append`: (constant, field of the task monitor's interval it is fed), in source order -/")
+    L.append("def tokioAppends : List (String × String) := [" + ", ".join("(" + lean_str(c) + ", " + lean_str(f) + ")" for c, f in tokio) + "]")
+    L.append("")
     L += ["end Rotonda.Generated.UnitMetrics", ""]
     write_if_changed(OUT, "\n".join(L))
-    print(f"{TOOL}: {len(entries)} metrics, shapes " + "; ".join(f"{n}={len(c)}" for n, c, _ in shapes))
+    print(f"{TOOL}: {len(entries)} metrics, shapes " + "; ".join(f"{n}={len(c)}" for n, c, _ in shapes) + f"; tokio={len(tokio)}")
 
 
 if __name__ == "__main__":
